@@ -66,6 +66,24 @@ def project_model(model, params, heaps):
     return out
 
 
+def small_scope(params, bound):
+    import z3
+    from .values import VArr, VArr2, VInt, VRecArr
+    out = []
+    for v in params.values():
+        if isinstance(v, VInt) and not z3.is_int_value(v.t):
+            out.append(z3.And(v.t >= -bound, v.t <= bound))
+        elif isinstance(v, VArr):
+            out.append(v.n <= bound)
+            if not z3.is_int_value(v.off):
+                out.append(v.off <= bound)
+        elif isinstance(v, VArr2):
+            out.append(z3.And(v.n0 <= bound, v.n1 <= bound))
+        elif isinstance(v, VRecArr):
+            out.append(v.n <= bound)
+    return out
+
+
 def work(job):
     """Verify one contract (all cases) and discharge its obligations. Returns plain data."""
     key, timeout_ms, known, extra = job
@@ -93,7 +111,7 @@ def work(job):
             obls, status = v.verify(c)
         fi = None
         try:
-            fi = src.func(c.key) if "::" in c.key and getattr(c, "kind", "function") != "lemma" else None
+            fi = src.func(c.key.replace("race:", "")) if "::" in c.key and getattr(c, "kind", "function") != "lemma" else None
         except Exception:  # noqa: BLE001
             fi = None
         res = []
@@ -105,6 +123,16 @@ def work(job):
                                 line=o.line, case=o.case, label=o.label, vacuity=True))
                 continue
             r = smt.check_valid(o.premises, o.goal, timeout_ms=timeout_ms)
+            if r.status == "unknown":
+                # small-scope retry: a counter-model under extra restrictions is still a counter-model
+                for bound in (3, 8):
+                    r2 = smt.check_valid(list(o.premises) + small_scope(o.params, bound), o.goal,
+                                         timeout_ms=min(timeout_ms, 5000), use_cvc5=False)
+                    if r2.status == "refuted":
+                        r2.time_s += r.time_s
+                        r2.solver += f" (small scope <= {bound})"
+                        r = r2
+                        break
             d = dict(name=o.name, kind=o.kind, cls=o.cls, status=r.status, solver=r.solver,
                      time_s=round(r.time_s, 4), line=o.line, case=o.case, label=o.label, reason=r.reason)
             if r.status == "refuted":
